@@ -15,6 +15,7 @@ from . import tables
 
 MAX_UNROLL = 4096
 MAX_PATHS = 6000
+EXPLORE_S = 300.0          # wall-clock budget of the exploration of one function case
 
 
 class _Return(Exception):
@@ -238,9 +239,19 @@ class Engine:
 
     # ------------------------------------------------------------------ exploration
     def explore(self, run):
+        """all paths of one function (one contract case) by re-execution.  Bounded twice: MAX_PATHS paths and EXPLORE_S seconds of wall
+        clock (VERIF_EXPLORE_S, default 300): a code shape whose exploration does not finish (typically a loop that lost its
+        invariant to a refactoring and is unrolled inside another loop's body) is `Unsupported` - the driver records the section as out
+        of reach (contract.sect) - and can never hang a check."""
+        import time, os
+        budget = float(os.environ.get("VERIF_EXPLORE_S") or 0) or EXPLORE_S
+        t_end = time.time() + budget
         work = [[]]
         paths = []
         while work:
+            if time.time() > t_end:
+                raise Unsupported("exploration budget exhausted (%d paths explored, %d more pending after %.0f s)"
+                                  % (len(paths), len(work), budget))
             prefix = work.pop()
             self.reset(prefix)
             cut = False
